@@ -170,44 +170,52 @@ def check(constraints, name="query", timeout_ms=20000, enc=None, logic="QF_NRA",
     return verdict, env
 
 
-def prove_zero(residual, name="identity", extra=(), timeout_ms=20000, use_assumptions=True):
+def _conds(conds, enc):
+    """Path conditions (executor condition trees) as z3 constraints."""
+    if not conds:
+        return []
+    from .executor import _cond_z3
+    return [_cond_z3(c, enc) for c in conds]
+
+
+def prove_zero(residual, name="identity", extra=(), timeout_ms=20000, use_assumptions=True, conds=()):
     """Is `residual == 0` entailed?  'unsat' means yes (negation unsatisfiable)."""
     enc = Encoder()
     goal = enc.rel("!=", residual)
-    cons = [goal] + [enc.rel(op, s) for op, s in extra]
+    cons = [goal] + [enc.rel(op, s) for op, s in extra] + _conds(conds, enc)
     if use_assumptions:
         cons += enc.assumptions()
     cons += enc.side_conditions()
     return check(cons, name=name, timeout_ms=timeout_ms, enc=enc)
 
 
-def prove_equal(a, b, name="identity", extra=(), timeout_ms=20000, use_assumptions=True):
+def prove_equal(a, b, name="identity", extra=(), timeout_ms=20000, use_assumptions=True, conds=()):
     """Is a == b entailed?  The two terms are handed to the solver un-subtracted,
     so that the solver's own polynomial arithmetic decides the identity."""
     enc = Encoder()
     goal = enc.term(a) != enc.term(b)
-    cons = [goal] + [enc.rel(op, s) for op, s in extra]
+    cons = [goal] + [enc.rel(op, s) for op, s in extra] + _conds(conds, enc)
     if use_assumptions:
         cons += enc.assumptions()
     cons += enc.side_conditions()
     return check(cons, name=name, timeout_ms=timeout_ms, enc=enc)
 
 
-def prove_rel(op, s, name="relation", extra=(), timeout_ms=20000, use_assumptions=True):
+def prove_rel(op, s, name="relation", extra=(), timeout_ms=20000, use_assumptions=True, conds=()):
     """Is `s op 0` entailed?  ('unsat' = yes)."""
     neg = {"==": "!=", "!=": "==", ">": "<=", ">=": "<", "<": ">=", "<=": ">"}[op]
     enc = Encoder()
-    cons = [enc.rel(neg, s)] + [enc.rel(o, x) for o, x in extra]
+    cons = [enc.rel(neg, s)] + [enc.rel(o, x) for o, x in extra] + _conds(conds, enc)
     if use_assumptions:
         cons += enc.assumptions()
     cons += enc.side_conditions()
     return check(cons, name=name, timeout_ms=timeout_ms, enc=enc)
 
 
-def satisfiable(rels, name="witness", timeout_ms=20000, use_assumptions=True):
+def satisfiable(rels, name="witness", timeout_ms=20000, use_assumptions=True, conds=()):
     """Is the conjunction of relations (op, Sym) satisfiable together with the assumptions?"""
     enc = Encoder()
-    cons = [enc.rel(o, x) for o, x in rels]
+    cons = [enc.rel(o, x) for o, x in rels] + _conds(conds, enc)
     if use_assumptions:
         cons += enc.assumptions()
     cons += enc.side_conditions()
